@@ -36,7 +36,7 @@ def run(ctx):
             txt = " ".join(toks)
             i_for = toks.index("for")
             head = toks[:i_for]
-            ctx.ob("C08.H.slots-before-loop", f.key, "declarations precede the loop", head[:2] == ["⟨proc_macro2::TokenStream⟩", "⟨core::option::Option<darling_core::codegen::attrs_field::Declaration<'_>>⟩"],
+            ctx.ob("C08.H.slots-before-loop", f.key, "declarations precede the loop", head[:1] == ["⟨proc_macro2::TokenStream⟩"] and head[1:2] in (["⟨core::option::Option<darling_core::codegen::attrs_field::Declaration<'_>>⟩"], ["⟨darling_core::codegen::attrs_field::Declaration<'_>⟩"]),
                    "tokens before `for`: %s" % head[:8])
             body = toks[i_for:]
             decl_inside = [t for t in body if "Declaration" in t or t == "let" and False]
